@@ -31,6 +31,10 @@ PRELUDE = '''
     ts.entries.push(TypeEntry { tag, bytes });
     id
   }
+  // degenerate hasher for every HashMap/HashSet the loader and the writer use: map semantics do not depend on hash values
+  pub fn vp_dh_write(_h: &mut ::std::hash::DefaultHasher, _b: &[u8]) {}
+  pub fn vp_dh_write_str(_h: &mut ::std::hash::DefaultHasher, _s: &str) {}
+  pub fn vp_dh_finish(_h: &::std::hash::DefaultHasher) -> u64 { 0 }
   pub fn vp_crc_sum(b: &[u8]) -> u32 { let mut s: u32 = 0x1234_5678; let mut i = 0; while i < b.len() { s = s.wrapping_mul(31).wrapping_add(b[i] as u32); i += 1; } s }
   pub fn vp_crc_real(b: &[u8]) -> u32 { let mut h = crc32fast::Hasher::internal_new_baseline(0, 0); h.update(b); h.finalize() }
   pub fn vp_header(const_count: u32, tbl_off: u64, tbl_len: u64, blob_off: u64, blob_len: u64, instr_off: u64, instr_len: u64,
@@ -54,7 +58,8 @@ FNS_LOADER = ["load_program_from_bytes", "verify_crc_trailer_seek", "load_progra
 
 def mk(name, body, domain, key, desc, fns, bounds, unwind, tier, attrs, nonterm=False):
     h = H(name, "    " + "\n    ".join(body), WHERE, domain=domain, key=key, desc=desc, functions=fns, bounds=bounds, unwind=unwind, tier=tier)
-    h.attrs = attrs + [STUB_IOERR, STUB_RS]
+    from .c14 import STUB_DH
+    h.attrs = attrs + [STUB_IOERR, STUB_RS] + STUB_DH
     h.rec_limit = 1      # no nested ValueKind / Value occurs in these harnesses
     h.stub_loc = True
     if nonterm:
@@ -93,9 +98,11 @@ HDR = {"magic": (0, 4), "version": (4, 1), "mech_ver": (5, 2), "flags": (7, 2), 
 HDR_SIZE = 129
 
 
-def gen_loader_nopanic(variant, live, tier, body_n=12):
+def gen_loader_nopanic(variant, live, tier, body_n=12, unwind=6):
     """the whole file is a stack array; every byte is symbolic except the magic and the header fields named in `zero`
-    (so that symbolic execution keeps the dead sections dead).  `live` = header fields left symbolic."""
+    (so that symbolic execution keeps the dead sections dead).  `live` = header fields left symbolic.  A live section
+    offset is either 0 (section absent) or points behind the header (>= 129, any value up to u64::MAX): sections placed
+    inside the header run the same code on more bytes, which only adds loop iterations."""
     total = HDR_SIZE + body_n + 4
     b = ["let mut file: [u8; %d] = kani::any();" % total,
          "file[0] = b'M'; file[1] = b'E'; file[2] = b'C'; file[3] = b'H';"]
@@ -104,6 +111,10 @@ def gen_loader_nopanic(variant, live, tier, body_n=12):
     for f in zero:
         off, n = HDR[f]
         b.append(" ".join("file[%d] = 0;" % (off + k) for k in range(n)))
+    for f in live:
+        if f.endswith("_off"):
+            off, n = HDR[f]
+            b.append("{ let o = u64::from_le_bytes([%s]); kani::assume(o == 0 || o >= %d); }" % (", ".join("file[%d]" % (off + k) for k in range(n)), HDR_SIZE))
     b += ["let c: u32 = kani::any(); unsafe { VP_CRC = c; }",
           "kani::cover!(true, \"VP:reached-call\");",
           "let r = ParsedProgram::from_bytes(&file[..]);",
@@ -112,25 +123,47 @@ def gen_loader_nopanic(variant, live, tier, body_n=12):
     return mk("c07_loader_nopanic_%s" % variant, b, "accept", "loader/%s" % variant,
               "loader on a %d-byte file whose header fields {%s} and all %d body bytes are symbolic (other section offsets/lengths zero): any panic, "
               "arithmetic overflow or out-of-bounds access is a violation" % (total, ", ".join(live), body_n),
-              FNS_LOADER, "file = %d-byte header + %d symbolic bytes + trailer" % (HDR_SIZE, body_n), body_n + 8, tier, [STUB_NONDET])
+              FNS_LOADER, "file = %d-byte header + %d symbolic bytes + trailer; live section offsets 0 or >= %d" % (HDR_SIZE, body_n, HDR_SIZE), unwind, tier, [STUB_NONDET])
 
 
 def gen_decode_instr(n, tier):
+    """loop-free harness body: the only loops left are decode_instructions' own (one iteration per instruction, at least 5
+    bytes each, and the 8-byte look-ahead of the loop head) and the VarArg operand loops, so the unwind bound is derived
+    from n instead of being n itself"""
+    m = max(1, n // 5)
+    va = max(0, (n - 17) // 4)
     b = ["let bytes: [u8; %d] = kani::any();" % n,
          "kani::cover!(true, \"VP:reached-call\");",
          "let r = decode_instructions(Cursor::new(&bytes[..]));",
          "match &r {", "  Ok(instrs) => {",
-         "    let mut out = Cursor::new(Vec::<u8>::new());",
-         "    let mut i = 0; while i < instrs.len() { instrs[i].write_to(&mut out).unwrap(); i += 1; }",
-         "    let out = out.into_inner();",
-         "    assert!(out.len() == %d, \"VP:reencoded-length-differs\");" % n,
-         "    let mut k = 0; let mut same = true; while k < %d { if k < out.len() && out[k] != bytes[k] { same = false; } k += 1; }" % n,
-         "    assert!(same, \"VP:reencoded-bytes-differ\");",
-         "    kani::cover!(instrs.len() >= 1, \"VP:reached-decoded\");", "    forget(out);", "  }",
-         "  Err(_) => { kani::cover!(true, \"VP:reached-err\"); }", "}", "forget(r);"]
+         "    assert!(instrs.len() <= %d, \"VP:more-instructions-than-bytes\");" % m,
+         "    let mut out = Cursor::new(Vec::<u8>::new());"]
+    for k in range(m):
+        b.append("    if instrs.len() > %d { instrs[%d].write_to(&mut out).unwrap(); }" % (k, k))
+    b += ["    let out = out.into_inner();",
+          "    assert!(out.len() == %d, \"VP:reencoded-length-differs\");" % n,
+          "    if out.len() == %d { assert!(%s, \"VP:reencoded-bytes-differ\"); }" % (n, " && ".join("out[%d] == bytes[%d]" % (k, k) for k in range(n))),
+          "    kani::cover!(instrs.len() >= 1, \"VP:reached-decoded\");", "    forget(out);", "  }",
+          "  Err(_) => { kani::cover!(true, \"VP:reached-err\"); }", "}", "forget(r);"]
     return mk("c07_decode_instructions_%d" % n, b, "accept", "decode_instructions/%d" % n,
               "decode_instructions on any byte string of length %d: no panic; when it decodes, re-encoding the instructions gives the same bytes" % n,
-              ["decode_instructions", "DecodedInstr::write_to"], "instruction stream of exactly %d symbolic bytes" % n, n + 3, tier, [])
+              ["decode_instructions", "DecodedInstr::write_to"], "instruction stream of exactly %d symbolic bytes (<= %d instructions, VarArg <= %d operands)" % (n, m, va),
+              max(m, va) + 2, tier, [])
+
+
+def gen_decode_instr_nopanic(n, tier):
+    """hostile instruction stream, totality only (the re-encoding obligation is in decode_instructions_<n> and, per kind, in
+    the instr_roundtrip harnesses)"""
+    m = max(1, n // 5)
+    va = max(0, (n - 17) // 4)
+    b = ["let bytes: [u8; %d] = kani::any();" % n,
+         "kani::cover!(true, \"VP:reached-call\");",
+         "let r = decode_instructions(Cursor::new(&bytes[..]));",
+         "match &r {", "  Ok(instrs) => { assert!(instrs.len() <= %d, \"VP:more-instructions-than-bytes\"); kani::cover!(instrs.len() >= %d, \"VP:reached-decoded\"); }" % (m, 2 if n >= 18 else 1),
+         "  Err(_) => { kani::cover!(true, \"VP:reached-err\"); }", "}", "forget(r);"]
+    return mk("c07_decode_instructions_total_%d" % n, b, "accept", "decode_instructions-total/%d" % n,
+              "decode_instructions on any byte string of length %d: returns Ok or Err, no panic, no out-of-bounds read" % n,
+              ["decode_instructions"], "instruction stream of exactly %d symbolic bytes" % n, max(m, va) + 2, tier, [])
 
 
 def vararg_spec(n):
@@ -222,43 +255,69 @@ SCALAR_TAGS = [("U8", 1), ("U16", 2), ("U32", 4), ("U64", 8), ("U128", 16), ("I8
                ("F32", 4), ("F64", 8), ("C64", 16), ("R64", 16), ("Bool", 1), ("Index", 8)]
 
 
-def gen_decode_const(tagname, size, tier):
-    b = ["let blob: [u8; 16] = kani::any();",
-         "let e = ParsedConstEntry { type_id: kani::any(), enc: kani::any(), align: kani::any(), flags: kani::any(), reserved: kani::any(), offset: kani::any(), length: kani::any() };",
+def gen_decode_const(tagname, size, tier, bad_id=None):
+    blob = "let blob: [u8; 16] = kani::any();"
+    if tagname == "R64":
+        # Ratio::new reduces with a gcd loop whose trip count grows with the magnitudes: numerator and denominator are small
+        # (all signs, zero included), sign-extended to the 8 + 8 bytes of the encoding
+        blob = ("let rn: i8 = kani::any(); let rd: i8 = kani::any(); kani::assume(rn >= -8 && rn <= 8 && rd >= -8 && rd <= 8); "
+                "let mut blob = [0u8; 16]; { let a = (rn as i64).to_le_bytes(); let c = (rd as i64).to_le_bytes(); let mut k = 0; while k < 8 { blob[k] = a[k]; blob[8 + k] = c[k]; k += 1; } }")
+    b = [blob,
+         # concrete ids: with a symbolic index symbolic execution cannot see that `entries.get(tid)` is None and walks every decoder
+         "let tid: u32 = %s;" % (bad_id if bad_id else "0"),
+         "let e = ParsedConstEntry { type_id: tid, enc: kani::any(), align: kani::any(), flags: kani::any(), reserved: kani::any(), offset: kani::any(), length: kani::any() };",
          "let mut types = TypeSection::new();",
          "types.entries.push(TypeEntry { tag: TypeTag::%s, bytes: Vec::new() });" % tagname,
          "let p = ParsedProgram { header: vp_header(1, 0, 0, 0, 0, 0, 0, 0, 0, 0, 0, 0, 0), features: Vec::new(), types, const_entries: vec![e],",
          "  const_blob: blob.to_vec(), instr_bytes: Vec::new(), symbols: HashMap::new(), mutable_symbols: HashSet::new(), instrs: Vec::new(), dictionary: HashMap::new() };",
          "kani::cover!(true, \"VP:reached-call\");",
          "let r = p.decode_const_entries();",
-         "kani::cover!(r.is_ok(), \"VP:reached-ok\"); kani::cover!(r.is_err(), \"VP:reached-err\");",
+         ("assert!(r.is_err(), \"VP:constant-with-missing-type-accepted\"); kani::cover!(true, \"VP:reached-err\");" if bad_id else
+          "kani::cover!(r.is_ok(), \"VP:reached-ok\"); kani::cover!(r.is_err(), \"VP:reached-err\");"),
          "forget(r); forget(p);"]
+    if bad_id:
+        return mk("c07_decode_const_missing_type_%s" % ("max" if "MAX" in bad_id else bad_id), b, "accept", "decode_const/missing-type/%s" % bad_id,
+                  "decode_const_entries on one symbolic constant entry whose type id names no entry of the type section: an error, no panic",
+                  ["ParsedProgram::decode_const_entries"], "1 entry, 1 type entry, type id %s" % bad_id, 20, tier, [])
     return mk("c07_decode_const_%s" % tagname.lower(), b, "accept", "decode_const/%s" % tagname,
-              "decode_const_entries on one fully symbolic constant entry (type id, encoding, alignment, offset, length) whose type section holds a single "
+              "decode_const_entries on one symbolic constant entry (encoding, alignment, offset, length; type id 0) whose type section holds a single "
               "%s type, over a 16-byte symbolic blob: no panic" % tagname,
               ["ParsedProgram::decode_const_entries", "check_alignment"], "1 entry, 1 type entry, blob 16 bytes", 20, tier, [])
 
 
 def gen_decode_const_roundtrip(t, tier):
-    """value -> compile_const -> decode_const_entries gives the same value back (bitwise for floats)"""
+    """value -> compile_const -> decode_const_entries gives the same value back (bitwise for floats).  The constant entries and
+    the blob are what the real CompileConst / CompileCtx::compile_const produced; the type section is written by hand (ids 0 and
+    1) so that the type interner's id bookkeeping, decided nowhere here, stays out of the query."""
     var = TY_VARIANT[t]
-    b = [sym_stmt(t, "x"), "let mut ctx = CompileCtx::new();", "let pad: u8 = kani::any();",
+    if t == "String":
+        # one 2-byte UTF-8 character followed by one ASCII byte: byte length 3, character count 2
+        sym = ("let c0: u8 = kani::any(); let c1: u8 = kani::any(); let c2: u8 = kani::any(); "
+               "kani::assume(c0 >= 0xC2 && c0 <= 0xDF && c1 >= 0x80 && c1 <= 0xBF && c2 >= 0x20 && c2 < 0x7F); "
+               "let x: String = { let mut v = String::new(); v.push(char::from_u32((((c0 & 0x1F) as u32) << 6) | ((c1 & 0x3F) as u32)).unwrap()); v.push(c2 as char); v };")
+        check = "let y = y.borrow(); let yb = y.as_bytes(); assert!(yb.len() == 3 && yb[0] == c0 && yb[1] == c1 && yb[2] == c2, \"VP:decoded-constant-differs\");"
+    else:
+        sym = sym_stmt(t, "x")
+        check = "let y = y.borrow().clone(); assert!(%s, \"VP:decoded-constant-differs\");" % eq_expr(t, "y", "x")
+    b = [sym, "let mut ctx = CompileCtx::new();", "let pad: u8 = kani::any();",
          "let id0 = pad.compile_const(&mut ctx).unwrap();", "let id = x.compile_const(&mut ctx).unwrap();",
-         "let entries: Vec<ParsedConstEntry> = ctx.const_entries.iter().map(|c| ParsedConstEntry { type_id: c.type_id, enc: c.enc as u8, align: c.align, flags: c.flags, reserved: 0, offset: c.offset, length: c.length }).collect();",
-         "let mut types = TypeSection::new(); types.entries = ctx.types.entries.clone();",
-         "let p = ParsedProgram { header: vp_header(2, 0, 0, 0, 0, 0, 0, 0, 0, 0, 0, 0, 0), features: Vec::new(), types, const_entries: entries,",
+         "assert!(id0 == 0 && id == 1 && ctx.const_entries.len() == 2, \"VP:constant-ids-wrong\");",
+         "let e0 = { let c = &ctx.const_entries[0]; ParsedConstEntry { type_id: 0, enc: c.enc as u8, align: c.align, flags: c.flags, reserved: 0, offset: c.offset, length: c.length } };",
+         "let e1 = { let c = &ctx.const_entries[1]; ParsedConstEntry { type_id: 1, enc: c.enc as u8, align: c.align, flags: c.flags, reserved: 0, offset: c.offset, length: c.length } };",
+         "let mut types = TypeSection::new();",
+         "types.entries.push(TypeEntry { tag: TypeTag::U8, bytes: Vec::new() }); types.entries.push(TypeEntry { tag: TypeTag::%s, bytes: Vec::new() });" % var,
+         "let p = ParsedProgram { header: vp_header(2, 0, 0, 0, 0, 0, 0, 0, 0, 0, 0, 0, 0), features: Vec::new(), types, const_entries: vec![e0, e1],",
          "  const_blob: ctx.const_blob.clone(), instr_bytes: Vec::new(), symbols: HashMap::new(), mutable_symbols: HashSet::new(), instrs: Vec::new(), dictionary: HashMap::new() };",
          "let r = p.decode_const_entries();",
          "match &r {", "  Ok(vals) => {", "    assert!(vals.len() == 2, \"VP:constant-count-differs\");",
-         "    match &vals[id as usize] { Value::%s(y) => { let y = y.borrow().clone(); assert!(%s, \"VP:decoded-constant-differs\"); }, _ => { assert!(false, \"VP:decoded-constant-kind-differs\"); } }"
-         % (var, eq_expr(t, "y", "x")),
-         "    match &vals[id0 as usize] { Value::U8(y) => { assert!(*y.borrow() == pad, \"VP:decoded-constant-differs\"); }, _ => { assert!(false, \"VP:decoded-constant-kind-differs\"); } }",
+         "    match &vals[1] { Value::%s(y) => { %s }, _ => { assert!(false, \"VP:decoded-constant-kind-differs\"); } }" % (var, check),
+         "    match &vals[0] { Value::U8(y) => { assert!(*y.borrow() == pad, \"VP:decoded-constant-differs\"); }, _ => { assert!(false, \"VP:decoded-constant-kind-differs\"); } }",
          "    kani::cover!(true, \"VP:reached\");", "  }",
          "  Err(_) => { assert!(false, \"VP:emitted-constant-rejected\"); }", "}", "forget(r); forget(p); forget(ctx);"]
     return mk("c07_const_roundtrip_%s" % t.lower(), b, "accept", "const-roundtrip/%s" % var,
               "a u8 constant followed by a symbolic %s constant: compile_const (alignment padding) then decode_const_entries returns both values exactly" % t,
-              ["CompileConst::compile_const for %s" % t, "CompileCtx::compile_const", "align_up", "TypeSection::get_or_intern", "ParsedProgram::decode_const_entries"],
-              "2 constants; all values of the kind", 20, tier, [STUB_INTERN])
+              ["CompileConst::compile_const for %s" % t, "CompileCtx::compile_const", "align_up", "ParsedProgram::decode_const_entries"],
+              "2 constants; all values of the kind" + ("; strings: one 2-byte UTF-8 character + one ASCII character" if t == "String" else ""), 20, tier, [STUB_INTERN])
 
 
 def gen_roundtrip(tier):
@@ -330,24 +389,30 @@ def gen_burst(n, tier):
 
 def plan(tier, seed):
     hs = [gen_gate(8, "quick"), gen_gate(4, "thorough"), gen_gate(16, "thorough"), gen_short("quick"),
-          gen_loader_nopanic("features", ["feature_off"], "quick"), gen_loader_nopanic("types", ["types_off"], "quick"),
-          gen_loader_nopanic("consts", ["const_count", "const_tbl_off", "const_tbl_len"], "thorough"),
-          gen_loader_nopanic("blob", ["const_blob_off", "const_blob_len"], "thorough"),
-          gen_loader_nopanic("instrs", ["instr_off", "instr_len"], "thorough"),
-          gen_decode_instr(9, "quick"), gen_decode_instr(13, "quick"), gen_decode_instr(18, "thorough"), gen_decode_instr(5, "thorough"), gen_decode_instr(26, "thorough"), gen_parse_const_entries("quick"),
+          gen_loader_nopanic("features", ["feature_off"], "quick", unwind=5), gen_loader_nopanic("types", ["types_off"], "quick", unwind=5),
+          gen_loader_nopanic("consts", ["const_count", "const_tbl_off", "const_tbl_len"], "quick", unwind=5),
+          gen_loader_nopanic("blob", ["const_blob_off", "const_blob_len"], "quick", unwind=18),
+          gen_loader_nopanic("instrs", ["instr_off", "instr_len"], "thorough", unwind=18),
+          gen_loader_nopanic("symbols", ["symbols_off", "symbols_len"], "thorough", unwind=5),
+          gen_loader_nopanic("dict", ["dict_off", "dict_len"], "thorough", unwind=5),
+          gen_decode_instr(9, "thorough"), gen_decode_instr(5, "thorough"),
+          gen_decode_instr_nopanic(13, "quick"), gen_decode_instr_nopanic(18, "thorough"), gen_decode_instr_nopanic(26, "thorough"), gen_parse_const_entries("quick"),
           gen_roundtrip("quick"), gen_symbols(1, "quick"), gen_symbols(12, "quick"), gen_symbols(13, "thorough"),
           gen_burst(4, "quick"), gen_burst(8, "thorough")]
     qtags = {"U8", "I64", "F64", "R64", "Bool", "U128"}
     for tagname, size in SCALAR_TAGS:
         hs.append(gen_decode_const(tagname, size, "quick" if tagname in qtags else "thorough"))
+    hs.append(gen_decode_const("U8", 1, "quick", bad_id="1"))
+    hs.append(gen_decode_const("U8", 1, "thorough", bad_id="u32::MAX"))
     hs.append(gen_vararg_reader(17, "quick"))
     hs.append(gen_vararg_writer(17, "quick"))
     hs.append(gen_vararg_reader(33, "thorough"))
     hs.append(gen_vararg_writer(33, "thorough"))
     for k in INSTR_KINDS:
         hs.append(gen_instr_kind(*k))
-    for t in ["u8", "u16", "i64", "f64", "bool"]:
+    for t in ["u8", "String", "i64", "f64", "bool"]:
         hs.append(gen_decode_const_roundtrip(t, "quick"))
+    hs.append(gen_decode_const_roundtrip("u16", "thorough"))
     for t in ["u32", "u64", "u128", "i8", "i16", "i32", "i128", "f32", "R64", "C64"]:
         hs.append(gen_decode_const_roundtrip(t, "thorough"))
     return {
